@@ -2,7 +2,8 @@
 PROP = "C06"
 LEVEL = "other"
 EXPLANATION = 'bounded stand-in: operation sequences on real builders compared step by step with an abstract model (view + invariant); deductive obligations on the builder are being added'
-TARGETS = []
+from . import builder_contracts as bc
+TARGETS = [bc.B + m for m in ("has_option", "has_command_option", "add_option", "add_argument")]
 LEMMAS = []
 try:
     from .C06_bounded import bounded, BOUNDED_RULE  # noqa: F401
